@@ -95,4 +95,59 @@ Judge_acyclic_unroll_acyclic(e) ==
         ELSE LET ev == SameFreeEval(e.c, e.r) IN
              IF ~ev.ok THEN {"free_signals_changed"}
              ELSE FnDiff(e.c, e.r, ev.vc, ev.vr, Outputs(e.c)) \cup Missing(e.c, e.r, Outputs(e.c)))
+
+(* C04  miter(c0, c1, startpoints, endpoints): e.c0, e.c1, e.s_given, e.S, e.e_given, e.E (sequences of names;
+   ignored when not given: the defaults are the startpoints / endpoints present in both), e.m *)
+RECURSIVE KOrXors(_,_,_,_,_,_,_)
+KOrXors(U, c0, c1, v0, v1, Es, acc) ==
+  IF Es = {} THEN acc
+  ELSE LET nm == CHOOSE x \in Es : TRUE
+           d == SymDiff(v0[Idx(c0, nm)].one, v1[Idx(c1, nm)].one)
+       IN KOrXors(U, c0, c1, v0, v1, Es \ {nm}, acc \cup d)
+Judge_miter(e) ==
+  IF e.exc # "" THEN Raised(e) ELSE
+  LET c0 == e.c0  c1 == e.c1  m == e.m
+      S == IF e.s_given THEN Range(e.S) ELSE InputNames(c0) \cap InputNames(c1)
+      E == IF e.e_given THEN Range(e.E) ELSE OutputNames(c0) \cap OutputNames(c1)
+      P0(nm) == IF nm \in S THEN nm ELSE "c0_" \o nm
+      P1(nm) == IF nm \in S THEN nm ELSE "c1_" \o nm
+  IN Machinery(c0) \cup Machinery(c1) \cup Machinery(m)
+     \cup (IF InputNames(m) = S THEN {} ELSE {"inputs_are_not_the_tied_startpoints"})
+     \cup (IF OutputNames(m) = {"sat"} THEN {} ELSE {"outputs_are_not_sat"})
+     \cup (IF ~(m.acyc /\ c0.acyc /\ c1.acyc) \/ ~HasName(m, "sat") \/ NFree(m) > MaxBits THEN {"MACHINERY:not_evaluable"}
+           ELSE IF \E i \in FreeNodes(c0) : ~HasName(m, P0(c0.names[i])) THEN {"free_signal_of_c0_missing"}
+           ELSE IF \E i \in FreeNodes(c1) : ~HasName(m, P1(c1.names[i])) THEN {"free_signal_of_c1_missing"}
+           ELSE LET U == StdU(m)
+                    vm == EvalStd(m)
+                    v0 == Eval(c0, U, [i \in FreeNodes(c0) |-> vm[Idx(m, P0(c0.names[i]))]])
+                    v1 == Eval(c1, U, [i \in FreeNodes(c1) |-> vm[Idx(m, P1(c1.names[i]))]])
+                    want == KOrXors(U, c0, c1, v0, v1, E, {})
+                    got == vm[Idx(m, "sat")]
+                IN (IF \E i \in FreeNodes(m) : m.names[i] \notin S \cup {P0(c0.names[j]) : j \in FreeNodes(c0)} \cup {P1(c1.names[j]) : j \in FreeNodes(c1)}
+                    THEN {"extra_free_signal_in_miter"} ELSE {})
+                   \cup (IF got.x = {} /\ got.one = want THEN {} ELSE {"sat_is_not_the_difference"}))
+
+(* C10  ternary(c): e.c, e.t, e.map (sequence of <<node of c, companion node of t>> as names) *)
+Judge_ternary(e) ==
+  IF e.exc # "" THEN Raised(e) ELSE
+  LET c == e.c  t == e.t
+      comp == [i \in 1..Len(e.map) |-> e.map[i]]
+      CompOf(nm) == (CHOOSE j \in 1..Len(e.map) : e.map[j][1] = nm)
+  IN Machinery(c) \cup Machinery(t)
+     \cup (IF {e.map[j][1] : j \in 1..Len(e.map)} = NameSet(c) THEN {} ELSE {"mapping_not_total"})
+     \cup {"original_node_changed:" \o c.names[i] : i \in {j \in 1..c.n :
+              ~HasName(t, c.names[j]) \/ (LET k == Idx(t, c.names[j]) IN
+                  t.ty[k] # c.ty[j] \/ t.out[k] # c.out[j] \/ FiNames(t, k) # FiNames(c, j))}}
+     \cup (IF ~(c.acyc /\ t.acyc) \/ NFree(t) > MaxBits \/ {e.map[j][1] : j \in 1..Len(e.map)} # NameSet(c)
+              \/ (\E j \in 1..Len(e.map) : ~HasName(t, e.map[j][2])) \/ (\E i \in 1..c.n : ~HasName(t, c.names[i]))
+           THEN {"MACHINERY:not_evaluable"}
+           ELSE LET U == StdU(t)
+                    vt == EvalStd(t)
+                    XOf(nm) == vt[Idx(t, e.map[CompOf(nm)][2])].one
+                    \* Kleene evaluation of c: input i is X where its companion is 1, else its own binary value
+                    fv == [i \in FreeNodes(c) |-> [one |-> vt[Idx(t, c.names[i])].one \ XOf(c.names[i]), x |-> XOf(c.names[i])]]
+                    vk == Eval(c, U, fv)
+                IN {"companion_is_not_kleene_x:" \o c.names[i] : i \in {j \in 1..c.n : XOf(c.names[j]) # vk[j].x}}
+                   \cup {"value_differs_from_kleene:" \o c.names[i] : i \in {j \in 1..c.n :
+                            vt[Idx(t, c.names[j])].one \ vk[j].x # vk[j].one}})
 =============================================================================
